@@ -60,7 +60,7 @@ func VF_C07_late_waiter() {
 // entry): virtual time passes while the handler waits for its result. The command is handed to Raft once -
 // nothing on the apply side could tell a second copy from a new command - and takes effect once.
 func VF_C07_slow_commit() {
-	vfOpt("timers", 1)
+	vfOpt("timers", 8)
 	cl := c14Start()
 	cl.conn.In <- vfEncode(bs("incr"), bs("n"))
 	p := <-cl.proposeC
